@@ -211,6 +211,31 @@ fn render_history(ctx: &Ctx, st: &mut Stats, seed: u64, png: bool, j: &J) {
     let hist = spec.noisy_history(&mut rng);
     let before = adapter::digest(&qr);
     st.eval();
+    // what the renderers return on a thread that has never rendered anything (fresh thread-locals):
+    // the worker thread below has rendered many other symbols of other sizes before this one
+    let reference = {
+        let (qr2, spec2) = (qr.clone(), spec.clone());
+        pool::on_fresh_thread(move || {
+            adapter::guarded(|| {
+                let svg = spec2.svg_builder().to_str(&qr2);
+                let term = qr2.to_str();
+                let png_bytes = if png { spec2.image_builder().to_bytes(&qr2).ok() } else { None };
+                (svg, term, png_bytes)
+            })
+        })
+    };
+    // ... and half of the time another, unrelated symbol (often a bigger one) is rendered right before
+    if rng.chance(1, 2) {
+        let mv = if rng.chance(1, 2) { 40 } else { 8 };
+        let (other, _) = random_input(&mut rng, mv, &ctx.caps);
+        if let Outcome::Ok(oq) = adapter::build(&Config::new(&other)) {
+            let _ = adapter::guarded(|| {
+                let _ = oq.to_str();
+                let _ = SvgBuilder::default().to_str(&oq);
+            });
+            st.count("unrelated_renders_interleaved", 1);
+        }
+    }
     let fail = |st: &mut Stats, kind: &str, detail: String| st.violation(ID, kind, format!("{detail} [final options {}; history of {} calls]", spec.describe(), hist.len()), j.to_json());
     // SVG: builder with the noisy history, rendered twice; fresh builder with final values only
     let r = adapter::guarded(|| {
@@ -242,6 +267,18 @@ fn render_history(ctx: &Ctx, st: &mut Stats, seed: u64, png: bool, j: &J) {
         return fail(st, "terminal-not-repeatable", "to_str() returned two different strings".into());
     }
     st.count("terminal_renders_compared", 2);
+    let (ref_svg, ref_term, ref_png) = match reference {
+        Ok(x) => x,
+        Err(p) => return fail(st, "render-panic", format!("on a fresh thread: {p}")),
+    };
+    if a != ref_svg {
+        let at = a.bytes().zip(ref_svg.bytes()).position(|(x, y)| x != y).unwrap_or(a.len().min(ref_svg.len()));
+        return fail(st, "svg-thread-history-dependence", format!("SVG rendered on a thread that rendered other symbols before differs from the same rendering on a fresh thread at byte {at} (lengths {} / {})", a.len(), ref_svg.len()));
+    }
+    if t1 != ref_term {
+        return fail(st, "terminal-thread-history-dependence", format!("to_str() on a thread that rendered other symbols before differs from the same call on a fresh thread (lengths {} / {})", t1.len(), ref_term.len()));
+    }
+    st.count("renders_equal_to_fresh_thread_reference", 2);
     if png {
         let r = adapter::guarded(|| {
             let mut used = ImageBuilder::default();
@@ -261,6 +298,10 @@ fn render_history(ctx: &Ctx, st: &mut Stats, seed: u64, png: bool, j: &J) {
                 if a != f {
                     return fail(st, "png-history-dependence", "PNG after a call history differs from a fresh builder with the final values".into());
                 }
+                if ref_png.as_ref() != Some(&a) {
+                    return fail(st, "png-thread-history-dependence", "PNG rendered on a thread that rendered other symbols before differs from the same rendering on a fresh thread".into());
+                }
+                st.count("renders_equal_to_fresh_thread_reference", 1);
                 st.count("png_renders_compared", 3);
             }
             Ok(other) => return fail(st, "png-error", format!("to_bytes failed: {:?}", (other.0.err(), other.1.err(), other.2.err()))),
